@@ -143,8 +143,8 @@ def shape_inputs(tier):
             ns = [200, 255, 256, 257, 300, 5000]
         elif fam.startswith("escape_"):
             ns = [100, 8191, 8192, 9000] if quick else [100, 4095, 4096, 8190, 8191, 8192, 8193, 9000, 20000, 100000]
-        elif fam.startswith("longexpr_"):
-            continue        # run separately through the generators' string path (see long_expr_inputs)
+        elif fam.startswith("longexpr_") or fam.startswith("ladder_"):
+            continue        # run separately: the generators' string path (long_expr_inputs) / the lattice stream (polynomial, not linear, in the size)
         elif fam == "many_supertypes":
             ns = [100, 150] if quick else [50, 100, 300]      # exp2python is super-linear (about cubic) in the number of supertypes of one entity
         elif fam.startswith("many_"):
@@ -302,9 +302,9 @@ def make_key(tool, r, fam):
     return re.sub(r"\s+", "_", key)
 
 
-EXTRA_MARKS = [("exit_discipline", ("exit-discipline",)), ("scan_buffers", ("SCANpush_buffer", "SCAN_buffers")), ("open_comment", ("open_comment",)), ("schema_file", ("EXPRESSfind_schema",)),
+EXTRA_MARKS = [("exit_discipline", ("exit-discipline",)), ("lattice", ("ladder_", "MultList::copyList", "ENTITYhas_ancestor", "non_unique_types_vector", "ENTITY_get_all_attributes", "LISTadd_attributes_once")), ("scan_buffers", ("SCANpush_buffer", "SCAN_buffers")), ("open_comment", ("open_comment",)), ("schema_file", ("EXPRESSfind_schema",)),
                ("schema_path", ("EXPRESS_PATHinit", "exppath")), ("escape_buffer", ("format_for_stringout",)), ("exprto_python", ("EXPRto_python",)),
-               ("quoted", ("EXPRstring", "EXPRlength", "boundary:quoted")), ("use_cycle", ("SCOPEfind_for_rename", "SCOPE_find_for_rename", "RENAMEresolve", "use_cycle", "imports:", "SCHEMA_get_entities_use", "SCOPE_find", "SCOPE_dfs", "TYPE_resolve")), ("errbuf", ("ERROR_nexterror", "ERROR_vprintf", "ERRORvreport_with_symbol", "errbuf")), ("longexpr", ("exp_output", "format_for_std_stringout")), ("selectsearch", ("EXP_resolve_op_dot_fuzzy", "EXP_resolve_op_group_fuzzy", "EXPresolve_op_dot", "EXPresolve_op_group")),
+               ("quoted", ("EXPRstring", "EXPRlength", "boundary:quoted", "boundary:repeat")), ("use_cycle", ("SCOPEfind_for_rename", "SCOPE_find_for_rename", "RENAMEresolve", "use_cycle", "imports:", "SCHEMA_get_entities_use", "SCOPE_find", "SCOPE_dfs", "TYPE_resolve")), ("errbuf", ("ERROR_nexterror", "ERROR_vprintf", "ERRORvreport_with_symbol", "errbuf")), ("longexpr", ("exp_output", "format_for_std_stringout")), ("selectsearch", ("EXP_resolve_op_dot_fuzzy", "EXP_resolve_op_group_fuzzy", "EXPresolve_op_dot", "EXPresolve_op_group")),
                ("subtype_cycle", ("ENTITYcalculate_inheritance", "ENTITYget_named_attribute", "subtype_cycle")),
                ("wide", ("non_unique_types_string",))]
 
@@ -466,7 +466,7 @@ THEOREM_SITE = {
     "C06_scope_depth": ["nested_functions", "nested_queries"], "C06_scope_depth_tokens": ["nested_functions"],
     "C06_scope_index_in_range": ["nested_functions"],
     "C06_no_overflow_wrap": ["ident_entity", "encoded_string"], "C06_no_overflow_raw": ["string_literal"],
-    "C06_no_overflow_wrap_line": [], "C06_no_overflow_exprlength": ["ident_attribute", "quoted"],
+    "C06_no_overflow_wrap_line": [], "C06_no_overflow_exprlength": ["ident_attribute", "quoted"], "C06_exprlength_children_agree": ["quoted"],
     "C06_no_overflow_case_fns": ["ident_enum_item", "ident_attribute", "ident_schema"], "C06_ident_gate": ["ident_enum_item", "ident_schema"],
     "C06_ident_gate_present": ["ident_enum_item", "ident_schema"], "C06_no_overflow_type_description": ["many_enum_items"],
     "C06_no_overflow_exppp_filename": ["ident_schema"],
@@ -475,6 +475,7 @@ THEOREM_SITE = {
     "C06_error_heap_bounded": ["errbuf"], "C06_error_heap_index": ["errbuf"],
     "C06_nonzero_exit_has_diagnostic": ["exit_discipline"], "C06_zero_exit_no_error_nothing_buffered": ["exit_discipline"],
     "C06_run_ends_and_abort_after_diagnostic": ["exit_discipline"], "C06_exit_status_independent_of_buffering": ["exit_discipline"], "C06_every_exit_site_prints": ["exit_discipline"],
+    "C06_dag_walks_linear": ["lattice"], "C06_complex_support_nodes_bounded": ["lattice"],
     "C06_rename_search_terminates": ["use_cycle"], "C06_rename_resolution_terminates": ["use_cycle"], "C06_import_graph_walks_terminate": ["use_cycle"], "C06_no_overflow_scan_buffers": ["scan_buffers"], "C06_no_overflow_open_comment": ["open_comment"],
     "C06_no_overflow_schema_file_name": ["schema_file", "schema_path"], "C06_schema_path_leaf_in_range": ["schema_path"],
     "C06_no_overflow_escape_buffer": ["escape_buffer"], "C06_no_overflow_exprto_python": ["exprto_python"],
@@ -619,6 +620,24 @@ def run(ctx):
                     disagreements.append(("quoted", f"{pos}:{n}:{q}", t, pred, f"{r['cls']} {r['sig']}"))
                 elif not pos.startswith("case_label") and hit:
                     disagreements.append(("quoted", f"{pos}:{n}:{q}", t, pred, f"{r['cls']} {r['sig']}"))
+    # aggregate initialisers with a repetition count `[ x : count ]` (audit C06-1): bound and writer look at different nodes
+    rsizes = [(100, "ident"), (9000, "ident"), (9990, "ident"), (10100, "ident"), (20000, "ident"), (12000, "sum"), (20000, "call")] if quick else \
+             [(n, k) for n in (100, 5000, 9800, 9850, 9870, 9990, 10000, 10100, 20000, 60000) for k in ("ident", "sum", "call")]
+    for pos in G.REPEAT_POSITIONS:
+        for n, kind in rsizes:
+            if kind == "sum" and n > 16000:
+                continue            # deeper than the resolver's nesting limit: refused, nothing printed
+            pred = model.one(f"exprrep {n}")
+            tag = f"boundary:repeat:{pos}:{kind}:{n}"
+            res = run_.run([(tag, G.repeat_count(pos, n, kind), None, None)], tools_of=lambda tg, f: ["exppp", "exp2cxx", "check-express"], timeout=tmo)
+            for t in ("exppp", "exp2cxx"):
+                r = res[(tag, t)]
+                ncomp += 1
+                hit = r["cls"] in R.BAD and any(x in r["sig"] + r["err"][:2500] for x in ("EXPRstring", "EXPRlength", "CASEout"))
+                if pos.startswith("case_label") and t == "exppp" and kind != "sum" and (mclass(pred) == "overflow") != hit and not (mclass(pred) == "overflow" and r["cls"] == "reject"):
+                    disagreements.append(("quoted", f"repeat:{pos}:{kind}:{n}", t, pred, f"{r['cls']} {r['sig']}"))
+                elif mclass(pred) != "overflow" and hit:
+                    disagreements.append(("quoted", f"repeat:{pos}:{kind}:{n}", t, pred, f"{r['cls']} {r['sig']}"))
     # interface resolution: a missing item imported from a schema on a ring of whole-schema USE clauses
     for n in (1, 2, 3, 7):
         pred = model.one(f"renamesearch {n}")
@@ -732,6 +751,37 @@ def run(ctx):
                         disagreements.append(("use_cycle", f"{kind}:{n}", t, pred, f"{r['cls']} rc={r['rc']}: {r['diag'][:100]}"))
                 elif r["cls"] not in R.BAD:
                     disagreements.append(("use_cycle", f"{kind}:{n}", t, pred, f"{r['cls']} rc={r['rc']}"))
+    # lattices: 2n declarations, 2^n paths.  Model: calls of each walk on a ladder; tools: must finish (exp2cxx may refuse a
+    # ladder with the node-budget diagnostic, nothing else may)
+    lat_tmo = max(tmo, 90)
+    # exp2cxx needs about 20 s under ASan for a million nodes (16 levels, or any refused ladder): one such size in the quick tier
+    lat = ((("ladder_plain", (4, 12, 32, 40, 100)), ("ladder_super", (4, 30)), ("ladder_rules", (4, 30)), ("ladder_select", (4, 30, 200)), ("ladder_type", (4, 30, 200)))
+           if quick else
+           (("ladder_plain", (4, 12, 16, 17, 26, 32, 40, 200)), ("ladder_super", (4, 12, 17, 30)), ("ladder_rules", (4, 12, 17, 30)),
+            ("ladder_select", (4, 12, 30, 31, 32, 200)), ("ladder_type", (4, 12, 30, 200))))
+    for fam, sizes in lat:
+        for n in sizes:
+            tag = f"boundary:{fam}:{n}"
+            heavy = quick and fam in ("ladder_plain", "ladder_super", "ladder_rules") and n > 12 and not (fam == "ladder_plain" and n == 40)
+            res = run_.run([(tag, G.shape(fam, n), fam, n)], timeout=lat_tmo,
+                           tools_of=(lambda tg, f: [t for t in R.TOOLS if t != "exp2cxx"]) if heavy else (lambda tg, f: R.TOOLS))
+            preds = {w: model.one(f"dagwalk {w} {n}") for w in ("ENTITY_get_all_attributes", "ENTITYhas_ancestor", "non_unique_types_vector")}
+            budget = model.one("nodebudget")
+            for t in R.TOOLS:
+                if (tag, t) not in res:
+                    continue
+                r = res[(tag, t)]
+                ncomp += 1
+                slow = [w for w, pr in preds.items() if pr.startswith("calls 2^") or (pr.startswith("calls ") and pr.split()[1].isdigit() and int(pr.split()[1]) > 10 ** 8)]
+                refused = r["cls"] == "reject" and "complex entity support" in r["err"]
+                if r["cls"] == "timeout":
+                    if not slow and not (t == "exp2cxx" and "none" in budget):
+                        disagreements.append((fam, n, t, f"{preds} {budget}", f"timeout after {lat_tmo} s"))
+                elif refused:
+                    if t != "exp2cxx" or "none" in budget or not fam.startswith("ladder_") or fam in ("ladder_select", "ladder_type") or n < 14:
+                        disagreements.append((fam, n, t, budget, f"refused: {r['diag'][:80]}"))
+                elif r["cls"] != "accept" and r["cls"] not in R.BAD:
+                    disagreements.append((fam, n, t, f"{preds}", f"{r['cls']} rc={r['rc']}: {r['diag'][:100]}"))
     # exit-status discipline: inputs with a known sequence of reports, with and without -B; invocations without an input file
     ncomp += exit_discipline_stream(ctx, b, model, tmo, disagreements)
     ctx.cov["correspondence"]["boundary"] = {"comparisons": ncomp, "disagreements": len(disagreements),
